@@ -6,20 +6,20 @@
 (* (what the senders sent, what C05 expects this call to deliver).  The       *)
 (* specification state and the ghosts live in one record st, so that the      *)
 (* save / restore events of tree-shaped replays are plain copies.             *)
-EXTENDS DecProps, TLC, Json, IOUtils
+EXTENDS DecProps, Tecmp, TLC, Json, IOUtils
 
 Log == ndJsonDeserialize(IOEnv.TRACE)
 
 VARIABLES l, ep, live, st, slots, cnt
 vars == << l, ep, live, st, slots, cnt >>
 
-D == INSTANCE Decoder WITH TecmpDecode <- LAMBDA b : << >>
+D == INSTANCE Decoder WITH TecmpDecode <- TecmpDecode
 
 St0 == [pending |-> D!EmptyPending,      \* specification state of the decoder
         runs    |-> [x \in {} |-> NoRun], \* ghost: clean runs, from the frames alone
         sent    |-> {}]                    \* ghost: messages the senders have sent (declared by the case)
 
-Cnt0 == [decodes |-> 0, delivered |-> 0, reassembled |-> 0, reassembled3 |-> 0, wraps |-> 0,
+Cnt0 == [tecmp_converted |-> 0, tecmp_rejected |-> 0, decodes |-> 0, delivered |-> 0, reassembled |-> 0, reassembled3 |-> 0, wraps |-> 0,
          c04_frames |-> 0, c05_expect |-> 0, faulted_delivered |-> 0, rejected_segments |-> 0,
          pending_nonempty |-> 0, solo_compared |-> 0, tecmp_or_short |-> 0]
 
@@ -77,7 +77,9 @@ DecodeFails(e) ==
    \cup (IF Has(e, "solo") /\ cmp /\ out # e.solo THEN {"C18"} ELSE {})
    \cup (IF cmp /\ \E x \in 1..Len(out) : << out[x].dev, out[x].st >> # myEp THEN {"C18"} ELSE {})
    \cup (IF Has(e, "pendBefore") /\ ~cmp /\ e.pend # e.pendBefore THEN {"C18", "C17"} ELSE {})
-   \cup (IF cmp /\ out # exp.out THEN {"NC"} ELSE {})
+   \cup (IF ~cmp /\ Len(b) >= 8 /\ ~TecmpOK(b, out) THEN {"C15"} ELSE {})          \* TECMP-routed buffers
+   \cup (IF ~cmp /\ Len(b) < 8 /\ out # << >> THEN {"C15", "C18"} ELSE {})
+   \cup (IF out # exp.out THEN {"NC"} ELSE {})
    \cup (IF Has(e, "pend") /\ ObsPendSet(e.pend) # SpecPendSet(exp.pend) THEN {"NC"} ELSE {})
 
 After(e) ==
@@ -91,6 +93,8 @@ After(e) ==
 Bump(c, e) ==
     LET b == e.in  g == GhostStep(st.runs, b)  meta == IF Has(e, "meta") THEN e.meta ELSE [none |-> TRUE] IN
     [c EXCEPT !.decodes = @ + 1,
+              !.tecmp_converted = @ + (IF ~IsCmp(b) /\ Len(b) >= 8 /\ Len(e.out) > 0 THEN 1 ELSE 0),
+              !.tecmp_rejected = @ + (IF ~IsCmp(b) /\ Len(b) >= 28 /\ Len(e.out) = 0 THEN 1 ELSE 0),
               !.delivered = @ + Len(e.out),
               !.reassembled = @ + (IF g.done THEN 1 ELSE 0),
               !.reassembled3 = @ + (IF g.done /\ IsCmp(b) /\ RunOf(st.runs, EpOf(b)).on /\ RunOf(st.runs, EpOf(b)).bytes > 16 + Len(RunOf(st.runs, EpOf(b)).pl) THEN 1 ELSE 0),
@@ -113,7 +117,9 @@ Step ==
               /\ ep' = e.id /\ live' = TRUE /\ st' = St0 /\ slots' = [k \in 0..40 |-> St0]
               /\ UNCHANGED cnt
          [] e.e = "crash" ->
-              /\ Report(IF live THEN {"CRASH", "C02"} ELSE {})
+              /\ Report(IF live THEN {"CRASH", "C02"} \cup
+                           (IF Has(e, "during") /\ Has(e.during, "in") /\ Len(e.during.in) >= 8 /\ e.during.in[1] = 0 THEN {"C15"} ELSE {})
+                        ELSE {})
               /\ live' = FALSE
               /\ UNCHANGED << ep, st, slots, cnt >>
          [] e.e \notin {"begin", "crash"} /\ ~live -> Unch
